@@ -73,6 +73,11 @@ var c16IDs = []string{"id", "pod.YAML", "x.JSON", "a/b.Yaml", "y.jSON", "../../e
 func checkC16(c *Ctx) {
 	c.Rule = "valid Specs (vendors/classes with dots, classes ending in .json/.yaml) x transient ids (with '/', '..', '.', leading dots, extensions, blanks, line breaks; catalogue + G-STR) x all four name generators x suffix {none,.json,.yaml} x directory lists of 1-3 entries whose last one is populated, empty, missing or missing two levels deep, with decoy files in parents, siblings and the lower-priority directories defining the same devices (also conflicting there); manual and auto-refresh caches; oracles: name is one path component; tree-snapshot diff after WriteSpec = exactly the expected file (+ directories that had to be created); encoding by extension; after Refresh the devices resolve to that file with the last directory's priority; RemoveSpec diff = exactly that file; second RemoveSpec = nil; distinct_nontrivial = distinct (generator, id shape, suffix, directory-list shape, mode)"
 	c.Assume("transient ids contain no NUL byte; generated file names are at most 255 bytes (NAME_MAX)", "the last configured directory holds no other file defining the same devices (a same-directory conflict is not 'another directory')")
+	// the package defaults point at scratch directories: a write that follows them
+	// instead of the configuration shows up there (and never touches the real ones)
+	trap := filepath.Join(c.Scratch, "package-defaults")
+	must(os.MkdirAll(filepath.Join(trap, "etc"), 0o755))
+	cdi.DefaultSpecDirs = []string{filepath.Join(trap, "etc"), filepath.Join(trap, "run")}
 	c.RunCases("gen", c.pick(800, 30000), 0, func(cs *Case) { c16Case(cs, false) })
 	c.RunCases("auto", c.pick(80, 1500), 4, func(cs *Case) { c16Case(cs, true) })
 	c.Floor("id_with_slash", 8)
@@ -300,6 +305,15 @@ func c16Case(cs *Case, auto bool) {
 		c.Count("caches_reconfigured_before_the_write", 1)
 	} else {
 		cache, _ = cdi.NewCache(cdi.WithSpecDirs(dirs...), cdi.WithAutoRefresh(false))
+	}
+	if chance(r, 20) {
+		// a reconfiguration that does not mention the directories leaves them alone
+		cache.Configure(cdi.WithAutoRefresh(auto))
+		c.Count("reconfigurations_that_do_not_mention_directories", 1)
+	}
+	if ents, _ := os.ReadDir(filepath.Join(c.Scratch, "package-defaults", "run")); len(ents) > 0 {
+		cs.Violation("write-touches-other", nil, fmt.Sprintf("something was written to the package default directory although every cache here has directories of its own: %v", ents[0].Name()), wit)
+		return
 	}
 	before := treeSnapshot(root)
 	// removing a name that does not exist succeeds, also while the last directory is missing
